@@ -1,15 +1,16 @@
 SPECIFICATION SimSpec
 CONSTANTS
   CKeys = {"k1"}
+  InstTenant <- InstTenantNs
   Contents = {"a", "b", "c"}
-  NsIds = {}
+  NsIds = {"n2"}
   NsNames = {"x", "y", "", "<e>"}
   UKeys = {}
   UVals = {"p", "q"}
   SKeys = {}
   CTypes = {"", "json", "yaml"}
   CDescs = {"", "d1", "<e>"}
-  IKeys = {"s1:10.0.0.1:80", "s1:10.0.0.2:80", "s2:10.0.0.1:81"}
+  IKeys = {"s1:10.0.0.1:80", "s1:10.0.0.2:80", "s2:10.0.0.1:81", "sn2:10.0.0.1:82"}
   IWeights = {2, 3}
   CaKeys = {"c1", "c2"}
   CaVals = {"cv", "cw"}
